@@ -2,9 +2,12 @@
 
 Every row runs ONE public entry point of the implementation twice: at origin o and at origin o + d (every
 coordinate-valued argument translated by d as well).  It yields
-  * two Coq cases (model vs implementation and origin-free specification vs implementation, at both origins) and
-  * py_ok: the metamorphic relation on the implementation itself, exactly (Fractions):
-        coordinate-valued results differ by exactly d, index/count/weight/matrix-valued results are identical.
+  * Coq cases `KPair d obs_at_o obs_at_o_plus_d`: [agree] = model and origin-free closed form equal the implementation's output at
+    both origins; [spec_ok] = THE PROPERTY evaluated on the two implementation outputs (coordinate-valued results differ by
+    exactly d, index-valued results are identical) -- so a change that keeps the property but moves the geometry is reported
+    as a broken correspondence (no failing input), not as a violation;
+  * py_ok: the same metamorphic relation, exactly (Fractions), over everything observed including results that have no Coq
+    case (values, neighbour tables, mapping matrices, extra grids of a dataset).
 All inputs are dyadic multiples of the pixel scale, so every double operation of the implementation is exact.
 """
 import random
@@ -164,7 +167,8 @@ def run_case(inp):
         SKIPPED["inexact"] += 1
         return {"coq": None, "py_ok": None, "kind": op + ":skipped-inexact", "nontrivial": False, "out": "skipped"}
     ok, why = relate(a["rel"], b["rel"], d)
-    cases = a["coq"] + b["coq"]
+    assert len(a["coq"]) == len(b["coq"])
+    cases = [f"(KPair {cpt(d)} {x} {y})" for x, y in zip(a["coq"], b["coq"])]
     return {"coq": cases[0] if cases else None, "extra_coq": cases[1:], "py_ok": ok, "kind": op,
             "nontrivial": nun >= 2, "out": {"at_o": a["show"], "at_o_plus_d": b["show"], "relation": why, "params": str(prm)[:300]},
             "detail": why}
@@ -528,7 +532,7 @@ def sp_hilbert_geometry(aa, inp, ps, o, d, rng):
     (ka, ia, ga, cva), (kb, ib, gb, cvb) = res
     # masked pixels of the adapt image are zero, so interpolated values are compared only through the relation
     ok = shifted(ga, d) == gb and cva == cvb and ia.shape == ib.shape and bool(np.all(np.abs(ia - ib) <= 1e-9 * np.maximum(1.0, np.abs(ia))))
-    return {"coq": ka, "extra_coq": [kb], "py_ok": ok, "kind": "hilbert_geometry", "nontrivial": True,
+    return {"coq": f"(KPair {cpt(d)} {ka} {kb})", "py_ok": ok, "kind": "hilbert_geometry", "nontrivial": True,
             "out": {"n": n, "length": length, "radius": str(radius), "kept": len(ga), "first": jg(ga[:3]), "first_at_o_plus_d": jg(gb[:3]),
                     "max_image_change": float(np.max(np.abs(ia - ib))) if ia.shape == ib.shape and ia.size else None}}
 
